@@ -30,7 +30,7 @@ using namespace asmjit;
 
 // a corrupted node list can make the real code loop for ever: every program gets 20 s, then the harness gives up
 // (the output so far is flushed so that the caller can name the program)
-static void on_alarm(int) { fflush(stdout); fputs("TIMEOUT: a program ran for more than 20 s\n", stderr); _exit(97); }
+static void on_alarm(int) { fflush(stdout); fputs("TIMEOUT: a program ran for more than 20 s of CPU time\n", stderr); _exit(97); }
 
 static std::string err_str(Error e) {
   if (e == Error::kOk) return "ok";
@@ -484,8 +484,7 @@ static void step(const std::string& line, std::vector<std::string>& out) {
   if (w[0] == "menu" && w.size() == 2) { menu(w[1], out); return; }
   if (w[0] == "begin" && w.size() == 4) {
     P.reset(new Prog());
-    signal(SIGALRM, on_alarm);
-    alarm(20);
+    vh::cpu_alarm(20, on_alarm);
     uint64_t enc = 0; vh::parse_hex(w[3], enc);
     Arch arch = w[1] == "x86" ? Arch::kX86 : w[1] == "a64" ? Arch::kAArch64 : Arch::kX64;
     g_arch = arch;
